@@ -237,6 +237,21 @@ def corpus():
                                           ['sp_rollback'], ['set', 0, 1, {'a': 3}], ['commit']]),
             dict(kind='S', cfg=cfg, prog=[['add', 0, 1, {'a': 1}], ['add', 3, 1, {'a': 0}], ['commit'], ['sp_begin'],
                                           ['set', 3, 1, {'a': 2}], ['flush'], ['sp_rollback'], ['set', 0, 1, {'a': 3}], ['commit']]),
+            # the transaction record comes into being inside the outer savepoint; an inner savepoint with versioned work is
+            # RELEASED, then the outer one is rolled back; more versioned work follows
+            dict(kind='S', cfg=cfg, prog=[['add', 3, 1, {'a': 0}], ['commit'], ['sp_begin'], ['add', 0, 1, {'a': 1}], ['flush'], ['sp_begin'],
+                                          ['add', 0, 2, {'a': 2}], ['flush'], ['sp_release'], ['sp_rollback'], ['add', 0, 3, {'a': 3}],
+                                          ['flush'], ['commit'], ['set', 0, 3, {'a': 4}], ['commit']]),
+            dict(kind='S', cfg=dict(cfg, strategy='subquery'),
+                 prog=[['add', 0, 1, {'a': 1}], ['commit'], ['set', 3, 1, {'a': 1}], ['sp_begin'], ['set', 0, 1, {'a': 2}], ['flush'],
+                       ['sp_begin'], ['set', 0, 1, {'a': 3}], ['flush'], ['sp_release'], ['sp_rollback'], ['set', 0, 1, {'a': 4}], ['commit']]),
+            # the transaction record is created inside the savepoint WITHOUT any recorded operation (manually, the documented
+            # way to set tx.meta early); the savepoint is rolled back; versioned work follows
+            dict(kind='S', cfg=cfg, prog=[['add', 0, 1, {'a': 1}], ['commit'], ['sp_begin'], ['manualtx'], ['sp_rollback'],
+                                          ['add', 0, 2, {'a': 2}], ['commit'], ['set', 0, 2, {'a': 3}], ['commit']]),
+            dict(kind='S', cfg=dict(cfg, strategy='subquery', changes=True),
+                 prog=[['add', 0, 1, {'a': 1}], ['commit'], ['add', 3, 1, {'a': 0}], ['flush'], ['sp_begin'], ['manualtx'], ['sp_rollback'],
+                       ['set', 0, 1, {'a': 2}], ['commit']]),
             # another session of the process opened a savepoint first and rolls it back before this session's one ends
             dict(kind='S', cfg=cfg, prog=[['add', 0, 1, {'a': 1}], ['commit'], ['by', 'begin'], ['sp_begin'], ['add', 0, 2, {'a': 2}],
                                           ['flush'], ['by', 'rollback'], ['sp_rollback'], ['add', 0, 3, {'a': 3}], ['commit']]),
